@@ -95,6 +95,9 @@ def contexts(F, n):
         "select": ("select", "k%d : int[0, %s]" % (n, F)),
         "init_global": ("gdecl", "int vg%d = %s;" % (n, F)),
         "init_local": ("tdecl", "int vl%d = %s;" % (n, F)),
+        "init_global_double": ("gdecl", "double vd%d = %s * 0.5;" % (n, F)),       # the rule does not depend on the variable's type
+        "init_local_double": ("tdecl", "double vm%d = %s * 0.5;" % (n, F)),
+        "init_global_array": ("gdecl", "int vi%d[2] = { %s, 0 };" % (n, F)),
         "arrsize": ("gdecl", "int va%d[%s];" % (n, F)),
         "range": ("gdecl", "int[0,%s] vr%d;" % (F, n)),
         "instarg": ("system", "P%d = TP(%s);" % (n, F)),
